@@ -82,6 +82,8 @@ type Step struct {
 	Addr    string   `json:"addr,omitempty"`    // member whose address is reported unreachable ("X": nobody's)
 	Reply   []string `json:"reply,omitempty"`   // member list the handshake is answered with
 	Members []string `json:"members,omitempty"` // the provider's member list after the step
+	Alt     bool              `json:"alt,omitempty"`   // the handshaking member introduces itself under its second address
+	Hosts   map[string]string `json:"hosts,omitempty"` // member -> the address name it is listed with after the step
 }
 
 type Scenario struct {
@@ -174,6 +176,9 @@ func newRig(cfg Config) (*rig, error) {
 	for i, m := range all {
 		r.addr[m] = fmt.Sprintf("127.0.0.1:%d", 41000+i)
 		r.name[r.addr[m]] = m
+	}
+	for i, m := range cfg.Ghosts { // a second address per ghost ("G12": G1 back under its id on a fresh port)
+		r.addr[m+"2"] = fmt.Sprintf("127.0.0.1:%d", 41500+i)
 	}
 	if g := cfg.Ghosts; !cfg.Provider && len(g) >= 2 {
 		// two members on one address (a node that came back under a fresh id next to its stale entry): a member is
@@ -384,9 +389,33 @@ const unknownAddr = "127.0.0.1:41999"
 
 // handshake sends a Handshake for member m to the provider and returns the member list it is answered with
 func (r *rig) handshake(n *node, m string) ([]string, error) {
+	ids, _, err := r.handshakeAt(n, m, false)
+	return ids, err
+}
+
+// hostName: the model's name for a listen address
+func (r *rig) hostName(addr string) string {
+	for name, a := range r.addr {
+		if a == addr {
+			return name
+		}
+	}
+	return addr
+}
+
+func (r *rig) handshakeAt(n *node, m string, alt bool) ([]string, map[string]string, error) {
+	ids, hosts, err := r.handshakeAt0(n, m, alt)
+	return ids, hosts, err
+}
+
+func (r *rig) handshakeAt0(n *node, m string, alt bool) ([]string, map[string]string, error) {
 	sender := actor.NewPID(probeAddr, "provider/probe")
 	prov := actor.NewPID(n.addr, "provider/"+n.name)
-	n.e.SendWithSender(prov, &cluster.Handshake{Member: r.member(m)}, sender)
+	mem := r.member(m)
+	if alt {
+		mem.Host = r.addr[m+"2"]
+	}
+	n.e.SendWithSender(prov, &cluster.Handshake{Member: mem}, sender)
 	deadline := time.Now().Add(3 * time.Second)
 	for time.Now().Before(deadline) {
 		r.net.mu.Lock()
@@ -403,18 +432,20 @@ func (r *rig) handshake(n *node, m string) ([]string, error) {
 		r.net.mu.Unlock()
 		if got != nil {
 			ids := []string{}
+			hosts := map[string]string{}
 			for _, x := range got.Members {
 				ids = append(ids, x.ID)
+				hosts[x.ID] = r.hostName(x.Host)
 			}
 			sort.Strings(ids)
-			return ids, nil
+			return ids, hosts, nil
 		}
 		time.Sleep(200 * time.Microsecond)
 	}
-	return nil, fmt.Errorf("the provider does not answer the handshake of %s with its member list", m)
+	return nil, nil, fmt.Errorf("the provider does not answer the handshake of %s with its member list", m)
 }
 
-func runProviderScenario(cfg Config, sc Scenario) (fail *Failure) {
+func runProviderScenario(cfg Config, sc Scenario, probe bool) (fail *Failure) {
 	r, err := newRig(cfg)
 	names := []string{}
 	bad := func(i int, what string) *Failure {
@@ -441,13 +472,18 @@ func runProviderScenario(cfg Config, sc Scenario) (fail *Failure) {
 		want := fmt.Sprint(st.Members)
 		switch st.Act {
 		case "Handshake":
-			names = append(names, "handshake("+st.M+")")
-			ids, err := r.handshake(n, st.M)
+			names = append(names, fmt.Sprintf("handshake(%s@%s)", st.M, map[bool]string{false: st.M, true: st.M + "2"}[st.Alt]))
+			ids, hs, err := r.handshakeAt(n, st.M, st.Alt)
 			if err != nil {
 				return bad(i, err.Error())
 			}
 			if fmt.Sprint(ids) != fmt.Sprint(st.Reply) {
 				return bad(i, fmt.Sprintf("the handshake of %s is answered with the member list %v, expected %v", st.M, ids, st.Reply))
+			}
+			for m, h := range st.Hosts {
+				if hs[m] != h {
+					return bad(i, fmt.Sprintf("the handshake of %s is answered with member %s at address %s, expected %s", st.M, m, hs[m], h))
+				}
 			}
 		case "MembersMsg":
 			names = append(names, fmt.Sprintf("members(%v)", st.L))
@@ -470,9 +506,10 @@ func runProviderScenario(cfg Config, sc Scenario) (fail *Failure) {
 		}
 		// the provider's own list (it answers every handshake with its complete member list) ...
 		var ids []string
+		var hosts map[string]string
 		deadline := time.Now().Add(10 * time.Second)
-		for {
-			ids, err = r.handshake(n, n.name)
+		for probe {
+			ids, hosts, err = r.handshakeAt(n, n.name, false)
 			if err != nil {
 				return bad(i, err.Error())
 			}
@@ -481,8 +518,16 @@ func runProviderScenario(cfg Config, sc Scenario) (fail *Failure) {
 			}
 			time.Sleep(2 * time.Millisecond)
 		}
-		if fmt.Sprint(ids) != want {
+		if probe && fmt.Sprint(ids) != want {
 			return bad(i, fmt.Sprintf("after %s the provider's member list is %v, expected %v", names[len(names)-1], ids, st.Members))
+		}
+		for m, h := range st.Hosts {
+			if !probe {
+				break
+			}
+			if hosts[m] != h {
+				return bad(i, fmt.Sprintf("after %s member %s is listed with address %s, expected %s", names[len(names)-1], m, hosts[m], h))
+			}
 		}
 		// ... and what the agent has been told
 		var view []string
@@ -574,7 +619,12 @@ func sameBlock(a, b packet) bool {
 
 func runScenario(cfg Config, sc Scenario) (fail *Failure) {
 	if cfg.Provider {
-		return runProviderScenario(cfg, sc)
+		// asking the provider for its list is an input too: once with a probing handshake after every step, once leaving
+		// the provider alone (only the handshakes of the behaviour itself and the agent's view are looked at)
+		if f := runProviderScenario(cfg, sc, true); f != nil {
+			return f
+		}
+		return runProviderScenario(cfg, sc, false)
 	}
 	r, err := newRig(cfg)
 	names := []string{}
